@@ -56,6 +56,8 @@ func runChild() {
 		out = runRounds(*childSd, *childArg, *childN)
 	case "bursts":
 		out = runBursts(*childSd, *childN)
+	case "producer":
+		out = runProducer(*childSd, *childN)
 	default:
 		fmt.Fprintln(os.Stderr, "unknown child mode")
 		os.Exit(3)
